@@ -379,7 +379,11 @@ def build_corpus():
     for a, b in product(ATOMS, repeat=2):
         out.append(a + b)
     out += MENU
-    return out[:3000]
+    out = out[:3000]
+    # inputs whose tree would expose a set/dict iteration order (strings hash differently in every process)
+    out += ["name in ('a','b','c','d','e','f','a')", "name in ('x1','x2','x3','x4','x5','x6','x7','x8','x1','x2')", "ns.f(zeta=1, alpha=2, mid=3, alpha2=4, Beta=5)",
+            "ns.f('q','w','e','r','t','y','q')", "a in (b, c, d, e, f, b)", "('k3','k1','k2','k1') eq ('k1','k2','k3')", "n in (3, 1, 2, 1, 3)"]
+    return out
 
 
 def run_processes(ctx):
